@@ -792,6 +792,9 @@ class HtpasswdFile(_CommonFile):
         if ok and new_hash is not None:
             # rehash user's password if old hash was deprecated
             assert user in self._records  # otherwise would have to use ._set_record()
+            if isinstance(new_hash, str):
+                # NOTE: records hold bytes in the file's encoding, same as set_hash() stores
+                new_hash = new_hash.encode(self.encoding)
             self._records[user] = new_hash
             self._autosave()
         return ok
